@@ -506,6 +506,20 @@ func (it *mapIter) next() tuple {
 	return []value{true, k, v}
 }
 
+type sliceMapIter struct {
+	ents [][2]value
+	pos  int
+}
+
+func (it *sliceMapIter) next() tuple {
+	if it.pos >= len(it.ents) {
+		return []value{false, nil, nil}
+	}
+	e := it.ents[it.pos]
+	it.pos++
+	return []value{true, e[0], e[1]}
+}
+
 type hashmapIter struct {
 	iter *reflect.MapIter
 	ok   bool
